@@ -102,6 +102,63 @@ fn check_string(out: &mut Out, t: &str, r: &mut Rng, embeddings: bool) {
     }
 }
 
+/// strings and identifiers of exactly the sizes at which buffers, small-string representations and chunked scanners
+/// change gear, filled with one-byte characters, multi-byte characters, and one multi-byte character straddling the end
+struct BoundarySizes;
+
+impl Phase for BoundarySizes {
+    fn name(&self) -> String {
+        "literals and identifiers of boundary lengths".into()
+    }
+    fn len(&self) -> u64 {
+        gen::BOUNDARY_SIZES.len() as u64 * 8
+    }
+    fn exhaustive(&self) -> bool {
+        true
+    }
+    fn run(&mut self, idx: u64, r: &mut Rng, out: &mut Out) {
+        let n = gen::BOUNDARY_SIZES[(idx / 8) as usize];
+        let t: String = match idx % 8 {
+            0 => "a".repeat(n),
+            1 => "é".repeat(n),
+            2 => format!("{}é", "a".repeat(n - 1)),
+            3 => format!("{}😀", "a".repeat(n - 1)),
+            4 => format!("{}\"", "a".repeat(n - 1)),
+            5 => format!("{}\\", "a".repeat(n - 1)),
+            6 => format!("é{}", "a".repeat(n - 1)),
+            _ => " ".repeat(n),
+        };
+        check_string(out, &t, r, n <= 64);
+        out.count("strings of boundary lengths");
+        // the same sizes as identifiers (and as digit strings: integers below 2^63 only up to 18 digits)
+        let w: String = match idx % 8 {
+            0 => "a".repeat(n),
+            1 => "é".repeat(n),
+            2 => format!("{}é", "a".repeat(n - 1)),
+            3 => format!("{}日", "x".repeat(n - 1)),
+            4 => format!("{}1", "_".repeat(n - 1)),
+            5 => format!("e{}", "9".repeat(n - 1)),
+            6 => format!("{}::b", "a".repeat(n.saturating_sub(3).max(1))),
+            _ => format!("0x{}g", "f".repeat(n)),
+        };
+        check_word(out, &w);
+        if n <= 18 {
+            let d = "9".repeat(n);
+            expect_value(out, "int/decimal", &d, &RV::Int(d.parse().unwrap()));
+            expect_value(out, "int/decimal", &format!("{}{}", "0".repeat(40), d), &RV::Int(d.parse().unwrap()));
+        }
+        if n <= 15 {
+            let h = "f".repeat(n);
+            expect_value(out, "int/hex", &format!("0x{}", h), &RV::Int(i64::from_str_radix(&h, 16).unwrap()));
+        }
+        // a float literal with n fraction digits
+        let f = format!("0.{}5", "0".repeat(n.min(300)));
+        if let Ok(x) = f.parse::<f64>() {
+            expect_value(out, "float/rendering", &f, &RV::Float(x));
+        }
+    }
+}
+
 impl Phase for Strings {
     fn name(&self) -> String {
         "string literals: single characters, random strings, embeddings".into()
@@ -500,6 +557,7 @@ pub fn phases(cfg: &Cfg) -> Vec<Box<dyn Phase>> {
     .map(|s| s.to_string())
     .collect();
     vec![
+        Box::new(BoundarySizes),
         Box::new(Strings {
             singles,
             random: cfg.n(60_000, 12_000_000),
